@@ -256,3 +256,38 @@ def need(R, oid, rule, site, stmt, f, patterns, binding=None, loc=None):
     R.check(oid, rule, site, stmt, b is not None, key='; '.join(m[:80] for m in missing),
             detail='no statement of the expected shape: %s' % missing, loc=loc or f.loc())
     return b
+
+
+def conditions(fl, e, allow=()):
+    """Texts of the conditions under which event `e` executes (enclosing ifs and
+    earlier early exits alike), minus those algebraically equal to an RF in
+    `allow` (with the same polarity).  An obligation that matches a statement
+    implementing an unconditional formula uses this to say so: a matched
+    statement that may be skipped is not the documented behaviour."""
+    out = []
+    for g in e.guards:
+        ok = False
+        for a in allow:
+            pos = True
+            if isinstance(a, tuple):
+                a, pos = a
+            if g.rf is not None and g.positive == pos and fl.tab.equal(g.rf, a):
+                ok = True
+        if not ok:
+            out.append(g.text())
+    return out
+
+
+def must_be_unconditional(fl, e, why, what, allow=()):
+    c = conditions(fl, e, allow)
+    if c:
+        why.append('%s is conditional on %s' % (what, ' and '.join(c)))
+    return not c
+
+
+def event_of(fl, node, kinds=('assign', 'aug', 'store', 'call', 'return')):
+    for k in kinds:
+        for e in fl.of(k):
+            if e.node is node:
+                return e
+    return None
